@@ -87,7 +87,9 @@ theorem rbrace_not_in_needle : bRBrace ∉ needle := by decide
 
 /-- what one round does to `pre ++ "\p{Is" ++ name ++ "}" ++ post` when that is the first occurrence of the needle and
     `name` has no `}`: the block is looked up (exactly / by prefix), the row is the found one (repaired) or the bracket
-    depth of `pre` (F1), and the replacement is the row's range text with or without its brackets. -/
+    depth of `pre` (F1), the depth is the one of the escape-aware loop (repaired) or of the previous-byte loop (F190), and
+    the replacement is the row's range text with or without its brackets, in the row's own length (repaired) or cut /
+    padded to `ulen` (F187). -/
 theorem chblocksStep_at (fx : Fixes) (tbl : List (Bytes × Bytes)) (ulen : Nat) (pre name post : Bytes)
     (hfirst : ∀ j, j < pre.length → needle.isPrefixOf ((pre ++ (needle ++ (name ++ bRBrace :: post))).drop j) = false)
     (hname : bRBrace ∉ name) :
@@ -95,12 +97,13 @@ theorem chblocksStep_at (fx : Fixes) (tbl : List (Bytes × Bytes)) (ulen : Nat) 
       match (if fx.f186 then findBlockExact tbl name else findBlock tbl (name ++ bRBrace :: post)) with
       | Option.none => .fail .unknownBlock
       | some found =>
-        let depth := depthOf pre
+        let depth := depthWith fx pre
         let row : Int := if fx.f1 then (found : Int) else depth
         if row < 0 ∨ row ≥ (tbl.length : Int) then .fail .crash
         else
           let range := (tbl.getD row.toNat ([], [])).2
-          .next (pre ++ (if depth ≠ 0 then (range.drop 1).take (ulen - 2) else range.take ulen) ++ post) := by
+          let n := copyLen fx.f187 ulen range
+          .next (pre ++ (if depth ≠ 0 then (range.drop 1).take (n - 2) else range.take n) ++ post) := by
   have hs := findSub_first (pat := needle) pre (name ++ bRBrace :: post) hfirst
   have hdrop : (pre ++ (needle ++ (name ++ bRBrace :: post))).drop pre.length = needle ++ (name ++ bRBrace :: post) := by
     simp
@@ -125,6 +128,36 @@ theorem chblocksStep_at (fx : Fixes) (tbl : List (Bytes × Bytes)) (ulen : Nat) 
   cases (if fx.f186 = true then findBlockExact tbl name else findBlock tbl (name ++ bRBrace :: post)) with
   | none => rfl
   | some found => rfl
+
+/-- the step with F1 and F186 repaired on `pre ++ "\\p{Is" ++ name ++ "}" ++ post`: the row named exactly `name`, with or without
+    its brackets according to the depth the step works with (`depthWith`), in the length the step copies (`copyLen`);
+    any other name is refused -/
+theorem chblocksStep_found (fx : Fixes) (h1 : fx.f1 = true) (h186 : fx.f186 = true)
+    (tbl : List (Bytes × Bytes)) (ulen : Nat) (pre name post : Bytes)
+    (hfirst : ∀ j, j < pre.length → needle.isPrefixOf ((pre ++ (needle ++ (name ++ bRBrace :: post))).drop j) = false)
+    (hname : bRBrace ∉ name) :
+    (∀ i, findBlockExact tbl name = some i →
+      (tbl.getD i ([], [])).1 = name ∧
+      chblocksStep fx tbl ulen (pre ++ (needle ++ (name ++ bRBrace :: post))) =
+        .next (pre ++ (if depthWith fx pre = 0
+                       then (tbl.getD i ([], [])).2.take (copyLen fx.f187 ulen (tbl.getD i ([], [])).2)
+                       else ((tbl.getD i ([], [])).2.drop 1).take (copyLen fx.f187 ulen (tbl.getD i ([], [])).2 - 2)) ++ post)) ∧
+    (findBlockExact tbl name = Option.none →
+      chblocksStep fx tbl ulen (pre ++ (needle ++ (name ++ bRBrace :: post))) = .fail .unknownBlock) := by
+  have hstep := chblocksStep_at fx tbl ulen pre name post hfirst hname
+  constructor
+  · intro i hi
+    have hlt := findIdx?_lt _ _ _ hi
+    have hsat := findIdx?_sat _ _ _ hi ([], [])
+    refine ⟨by simpa using hsat, ?_⟩
+    rw [hstep]
+    simp only [h186, if_true, hi, h1]
+    have : ¬ ((i : Int) < 0 ∨ (i : Int) ≥ (tbl.length : Int)) := by omega
+    simp only [this, if_false, Int.toNat_natCast]
+    by_cases hd : depthWith fx pre = 0 <;> simp [hd]
+  · intro hn
+    rw [hstep]
+    simp only [h186, if_true, hn]
 
 /-- with F1 repaired the row index always lies inside the table: no round can crash -/
 theorem chblocksStep_no_crash (fx : Fixes) (hf : fx.f1 = true) (tbl : List (Bytes × Bytes)) (ulen : Nat) (t : Bytes) :
